@@ -22,6 +22,7 @@ def run(chk, repo):
         'C02.c the timeout retry writes only max_variants_per_node / additional_variants_per_misc on a copy and re-enters the same wrapper',
         'C02.d X / * rejection before storage',
         'C02.e the M-removed form of a peptide is emitted only under (start codon, sequence starts with M)',
+        'C02.h in the unknown-ORF traversal the start-site search flag handed downstream is False once the real fusion breakpoint was seen',
     ]
     chk.not_decided = ['that each emitted node chain is a path of one haplotype (merge/expand/cross-join correctness)',
                        'pop-collapse flag semantics inside the ORF traversals']
@@ -170,6 +171,30 @@ def run(chk, repo):
                        f"'{unparse(c)}' shifts a per-node coordinate by '{a}', which is not the accumulator {accs} advanced by every joined node: "
                        "positions in the third and later nodes of a series are misplaced (e.g. Sec truncation cuts at an arbitrary residue)",
                        key=f"{q}::shift::{unparse(c.func.value)[:30]}", fn=g.qual)
+
+    # ------------------------------------------------------------------ h
+    from sa.model import arg_of
+    chk.rule('C02.h', 'R-THREAD: once the real fusion breakpoint is seen the start-site search is closed for every downstream cursor', 1)
+    uq = 'svgraph.PeptideVariantGraph:PeptideVariantGraph.call_and_stage_unknown_orf'
+    u = repo.func(uq)
+    chk.uses(u)
+    ucfg = CFG(u.node)
+    ctor = repo.func('svgraph.PeptideVariantGraph:PVGCursor.__init__')
+    cur = [c for c in G.find_calls(u.node, 'PVGCursor')]
+    closes = [n for n in ucfg.nodes if n.kind == 'stmt' and isinstance(n.ast, ast.Assign) and isinstance(n.ast.value, ast.Constant)
+              and n.ast.value.value is False and any(isinstance(a, ast.If) and 'is_real_fusion' in unparse(a.test) for a in repo.ancestors(n.ast))]
+    if len(cur) != 1 or len(closes) != 1:
+        raise AnalysisError(f"anchor={uq}: PVGCursor construction / real-fusion branch not found")
+    e = arg_of(cur[0], ctor, 'finding_start_site')
+    site = ucfg.node_for(repo.enclosing_stmt(cur[0]))
+    st = ucfg.must_facts(closes[0].id)
+    fx = st.get(site)
+    ok = e is not None and fx is not None and fx.known(e) is False
+    chk.ob('C02.h', f"after `{norm_stmt(closes[0].ast)}` every staged cursor gets finding_start_site known False (argument `{unparse(e) if e is not None else 'default'}`)",
+           repo.loc(u, cur[0]), ok,
+           f"the cursor staged for the out-nodes receives `{unparse(e) if e is not None else 'the default True'}`, which is not known to be False after the "
+           "real fusion breakpoint was found in this node: downstream (accepter) nodes keep opening ORFs, so peptides from start codons behind the "
+           "breakpoint of a fusion without known ORF are reported", key=uq + '::close-start-search', fn=u.qual)
 
 
 def retry_effects(chk, repo, rid):
